@@ -22,7 +22,13 @@ const (
 	shapeMixedEnc     = 3 // raw blobs, stored (level 0) and best-compression zlib blobs next to default zlib blobs; every third block holds three groups
 )
 
-var shapeNames = []string{"", " uneven-blocks", " naturally-empty-blocks", " raw-and-zlib-blobs", " large-raw-blocks-among-small-zlib-blocks"}
+var shapeNames = []string{"", " uneven-blocks", " naturally-empty-blocks", " raw-and-zlib-blobs", " large-raw-blocks-among-small-zlib-blocks", " metadata-in-every-other-block"}
+
+// shapeInfoAlternates: every block holds a dense group and a way; the dense groups of blocks
+// 0, 2, 4, ... carry DenseInfo and those of 1, 3, 5, ... none, the ways carry an Info in
+// blocks 0, 1, 4, 5, ... only - whatever a decoder keeps from the block it handled before
+// (which block that was depends on the decoder count) must not reach the next one.
+const shapeInfoAlternates = 5
 
 // shapeBigRaw: block 0 and every 7th block is an uncompressed blob of 60 ways (a few KB), the
 // others are default-zlib blobs of two objects - a decoder that holds on to the memory of a raw
@@ -105,6 +111,16 @@ func shapedFile(shape, b int, header bool) *pbfgen.File {
 					blk.Groups = []pbfgen.Group{{}, {}}
 				}
 			}
+		case shapeInfoAlternates:
+			g := group(0, base, 1, 2)
+			if i%2 == 1 {
+				g.Dense.Info = false
+			}
+			w := group(1, base, 3, 1)
+			if (i/2)%2 == 1 {
+				w.Ways[0].Info = nil
+			}
+			blk.Groups = []pbfgen.Group{g, w}
 		case shapeBigRaw:
 			if i%7 == 0 {
 				blk.Groups = []pbfgen.Group{group(1, base, 1, 60)}
